@@ -294,10 +294,34 @@ pub struct QueryCase {
     pub endpoint: String,
     /// also configure the TACT HTTP client (pointing at the mock)
     pub via_http: bool,
+    /// a second endpoint, spelled like the first up to a late difference (another suffix behind
+    /// the last '.', one more character, letter case): queried by the same client after the first;
+    /// both answers must end up in files of their own
+    #[serde(default)]
+    pub sibling: Option<String>,
 }
 
 pub fn query_strategy() -> BoxedStrategy<QueryCase> {
-    (strs::endpoint_string(), prop::bool::weighted(0.8)).prop_map(|(endpoint, via_http)| QueryCase { endpoint, via_http }).boxed()
+    (strs::endpoint_string(), prop::bool::weighted(0.8), proptest::option::weighted(0.3, 0u8..6))
+        .prop_map(|(endpoint, via_http, sib)| {
+            let sibling = sib.map(|how| {
+                let (dir, last) = match endpoint.rfind('/') {
+                    Some(p) => (&endpoint[..=p], &endpoint[p + 1..]),
+                    None => ("", endpoint.as_str()),
+                };
+                let stem = last.rfind('.').map_or(last, |p| &last[..p]);
+                match how {
+                    0 => format!("{endpoint}.next"),
+                    1 => format!("{dir}{stem}.prev"),
+                    2 => format!("{dir}{stem}.bpsv"),
+                    3 => format!("{endpoint}x"),
+                    4 => format!("{endpoint}.tmp"),
+                    _ => format!("{dir}{}", if last.chars().any(|c| c.is_ascii_lowercase()) { last.to_ascii_uppercase() } else { format!("{last}_") }),
+                }
+            });
+            QueryCase { endpoint, via_http, sibling }
+        })
+        .boxed()
 }
 
 /// what validate_endpoint documents and does: non-empty, ≤ 1000 bytes, alphanumerics and `/ _ - .`
@@ -399,6 +423,27 @@ fn check_query_inner(c: &QueryCase, known: &Arc<Known>) -> Verdict {
         }
         if confined(&sb, &mut before, &mut j, &ekey, "RibbitTactClient::query", e) {
             return j.finish(true);
+        }
+        // two endpoints, two files
+        if let Some(s2) = c.sibling.as_ref().filter(|s2| *s2 != e && ok_shape && admitted(s2) && !outside) {
+            let plain = |x: &str| x.split('/').all(|c| !c.is_empty() && c != "." && c != "..");
+            let nested = s2.starts_with(&format!("{e}/")) || e.starts_with(&format!("{s2}/"));
+            let first_ok = j.classes.contains(&"query-ok");
+            if plain(e) && plain(s2) && !nested && first_ok && sb.resolve(&format!("api/ribbit/{s2}")).is_some_and(|t| sb.is_under_root(&t)) {
+                let files_before = sb.all_files_in_root(&before);
+                if let Ok(Ok(_)) = catch_panic(|| rt.block_on(client.query(s2))) {
+                    let after = sb.list();
+                    let files_after = sb.all_files_in_root(&after);
+                    j.class("sibling-endpoint-queried");
+                    if files_before >= 1 && files_after <= files_before {
+                        j.report(
+                            "C20:ribbit-query:two-endpoints-share-a-cache-file".into(),
+                            format!("query({e:?}) then query({s2:?}) by one client: {files_before} cache file(s) before the second query, {files_after} after it"),
+                        );
+                        return j.finish(true);
+                    }
+                }
+            }
         }
     }
     if outside {
